@@ -81,8 +81,44 @@ def h3_services_job(ctx):
             raise ToolError("vacuous table: no HTTP/3 vector expects outcome %s" % need)
     if kinds.get("reset", 0):
         raise ToolError("an HTTP/2 stream error is among the outcomes expected on HTTP/3")
-    r = ctx.harness("c18h3", ["--vectors", t["out"]], name="c18h3." + ctx.tier, env={"VERIF_ROOT": ROOT}, timeout=1500)
+    # the multiplexer's timer bookkeeping (QuicTimers.tla): the design with and without the defects found ...
+    qt = ctx.tlc("QuicTimers", "QuicTimers.fixed.cfg", name="QuicTimers.fixed", workers=4, timeout=600,
+                 require_actions=("Tick", "TimerFire", "PacketIn", "SocketSend", "RearmMsg"))
+    ctx.spec_must_hold(qt)
+    qb = ctx.tlc("QuicTimers", "QuicTimers.bug.cfg", name="QuicTimers.bug", workers=2, timeout=600, coverage=False)
+    if not (qb["error"] and "Covered" in qb["error"]):
+        raise ToolError("QuicTimers.tla with Fixed = FALSE must violate Covered (got: %s)" % qb["error"])
+    qmux = os.path.join(ctx.work, "qmux.ndjson")
+    r = ctx.harness("c18h3", ["--vectors", t["out"], "--qmux", qmux], name="c18h3." + ctx.tier, env={"VERIF_ROOT": ROOT}, timeout=1500)
     c = r["counters"]
+    # ... and every state the real multiplexer recorded during this run against it (QuicTimersTrace.tla)
+    nobs = c.get("qmux_observations", 0)
+    if nobs:
+        most = 0
+        with open(qmux) as f:
+            for line in f:
+                most = max(most, line.count('"established"'))
+        if most > 64:
+            raise ToolError("an observation lists %d connections, QuicTimersTrace.tla maps 64" % most)
+        tv = ctx.tlc("QuicTimersTrace", "QuicTimersTrace.cfg", name="QuicTimersTrace", trace_mode=True, env={"TRACE": qmux}, timeout=900, coverage=False)
+        if tv["error"]:
+            k = 0
+            with open(tv["out"], errors="replace") as f:
+                for line in f:
+                    m = re.match(r'^<<"UNMATCHED", (\d+)>>$', line.strip())
+                    if m:
+                        k = int(m.group(1))
+            lines = open(qmux).read().splitlines()
+            bad = json.loads(lines[k - 1]) if 0 < k <= len(lines) else {}
+            worst = [x for x in bad.get("conns", []) if not x.get("closed") and not x.get("rearm") and x.get("has_timer")
+                     and not (bad.get("has_closest") and bad.get("closest", 0) <= x["timer"] + 100000 and x.get("has_dl") and x.get("dl", 0) <= x["timer"] + 100000)]
+            kind = "established" if any(x.get("established") for x in worst) else "handshake"
+            ctx.violations.append({"sig": "quic-timers:not-covered:%s" % kind,
+                                   "what": "the QUIC multiplexer would sleep past a connection's timer: observation %d of %d (times in microseconds from the observation): closest deadline %s, connection(s) %s"
+                                           % (k, len(lines), bad.get("closest") if bad.get("has_closest") else None, json.dumps(worst[:3])),
+                                   "detail": {"kind": "trace", "module": "QuicTimersTrace", "observation": bad, "tlc_error": tv["error"]}, "job": "QuicTimersTrace"})
+    elif not r.get("violations"):
+        raise ToolError("no QMux observation was recorded")
     aborted = any("aborted by the watchdog" in n or "process died" in n for n in r.get("notes", []))
     if not aborted:
         if c.get("vectors", 0) != len(vecs):
@@ -95,7 +131,7 @@ def h3_services_job(ctx):
         "h3_services_states": t["distinct"], "h3_services_transitions": t["states"],
         "h3_services_vectors": len(vecs), "h3_services_evaluations": r["evaluations"], "h3_services_distinct_nontrivial": r["distinct_nontrivial"],
         "h3_services_expected_outcome_kinds": kinds, "h3_services_left_to_thorough": c.get("vectors_left_to_thorough", 0),
-        "h3_services_loss_runs": c.get("loss_runs", 0), "h3_services_samples": r["samples"][:2],
+        "h3_services_loss_runs": c.get("loss_runs", 0), "quic_timer_states_checked": nobs, "quic_timer_model_states": qt["distinct"], "h3_services_samples": r["samples"][:2],
         "h3_services_rule": ("TLC enumerates Services.tla from one initial state per request head for protocol h3 (MCServicesH3: the speedtest-host, ping-host, "
                              "tunnel-host routing and /speed/ rows and the reverse-proxy-host rows of MCServices, with Expect evaluated for h3) and prints the set of "
                              "acceptable outcomes; c18h3 sends each request with a quiche client to a Core listening on loopback with listen_protocols.quic (one "
